@@ -442,7 +442,7 @@ class _Setup:
             crop_bf_mask=self.crop if crop is None else crop, bf_mask_padding_px=int(self.case.get("pad", 1)), verbose=False,
         )  # fmt: skip
 
-    def run(self, q, dp, sel, route="init", bs=None, rot=None, abers=None, **kw):
+    def run(self, q, dp, sel, route="init", bs=None, rot=None, abers=None, buf=None, **kw):
         """reconstruct on the pixels `sel` (indices into the construction mask's stack order; None = the
         construction mask itself, passed as bf_mask=None).  Returns (corrected_stack, corrected_bf) as float64."""
         torch = q[0]
@@ -459,6 +459,14 @@ class _Setup:
             flags[torch.tensor(sel, dtype=torch.long)] = True
             bfm = torch.zeros_like(inst)
             bfm[inst] = flags
+            if buf is not None:
+                # the caller keeps ONE mask buffer and refills it in place between calls (seeded change C04-12: a
+                # memoised bright-field context whose "same mask?" test compares the buffer with itself)
+                if "t" in buf:
+                    buf["t"].copy_(bfm)
+                else:
+                    buf["t"] = bfm
+                bfm = buf["t"]
         if route in ("override", "decoy") or abers is not None:
             kw["override_aberration_coefs"] = dict(self.abers if abers is None else abers)
         if route in ("override", "decoy") or rot is not None:
@@ -776,9 +784,12 @@ def _check_meta(ctx, case):
             Bm = [S.sel[i] for i in pb]
             wa, wb = float(w[A].sum()), float(w[Bm].sum())
             if wa >= W_FLOOR and wb >= W_FLOOR:
+                holder = {} if len(pa) % 2 else None  # half of the cases: both calls pass the same, refilled tensor
+                if holder is not None:
+                    ctx.count("partition_mask_buffer_reused_in_place")
                 with ctx.sut(case, "reconstruct(bf_mask=A), reconstruct(bf_mask=B)"):
-                    _sa, Ba = S.run(q, dpb, A, S.route, None, deconvolution_kernel=case["kernel"], **kw)
-                    _sb, Bb2 = S.run(q, dpb, Bm, S.route, None, deconvolution_kernel=case["kernel"], **kw)
+                    _sa, Ba = S.run(q, dpb, A, S.route, None, buf=holder, deconvolution_kernel=case["kernel"], **kw)
+                    _sb, Bb2 = S.run(q, dpb, Bm, S.route, None, buf=holder, deconvolution_kernel=case["kernel"], **kw)
                 _finite(case, "sub-mask reconstruction (%s)" % fam, Ba, Bb2)
                 sc3 = wa * (float(np.max(np.abs(Ba))) + float(np.max(np.abs(_sa)))) + wb * (float(np.max(np.abs(Bb2))) + float(np.max(np.abs(_sb)))) + W * s_bf
                 _cmp(
